@@ -61,58 +61,58 @@ def run(ck):
             paths = paths_of(prog, th)
             if not c["same"] and not c["bases"]:
                 paths = [q for q in paths if any(x[1].startswith("neg_batch_size ==") and x[2] is False for x in q.conds)]
-            p = single(paths, inst)
-            shape_err_verdict(ck, "C07.R1", inst, paths)
-            r = p.value
-            srcs = getattr(r, "sources", None)
-            want_n = 3 if c["bases"] else 2
-            if not isinstance(r, VUnknown) or srcs is None or len(srcs) != want_n or not all(isinstance(x, VList) for x in srcs):
-                ck.undecided("C07.R1", inst, ssite, "the batches are not returned as zip(<%d comprehension-built lists>)" % want_n)
-                continue
-            pos_t, pos_r = batch_desc(srcs[0])
-            neg_t, neg_r = batch_desc(srcs[1])
-            train = T.sym("train")
-            perms = [a for a in (pos_t.all_atoms() if pos_t is not None else []) if isinstance(a, T.App) and a.op == "randperm"]
-            ck.check(len(perms) == 1 and perms[0].args[0] == T.sym("N"), "C07.R1", inst + ":permutation of all N rows", ssite,
-                     "positive batches are not rows of the data under one random permutation of range(N): %r" % (pos_t,))
-            if len(perms) != 1:
-                continue
-            perm = T.P(perms[0])
-            shuffled = T.app("index", train, (("adv", perm),))
-            ck.check(pos_t == sliced(shuffled, pb), "C07.R2", inst + ":positive batch = rows [s, s+b) of the shuffled data", ssite,
-                     "positive batch is %r; expected consecutive slices of size pos_batch_size of the shuffled data" % (pos_t,))
-            ck.check(pos_r == ("range", T.ZERO, T.sym("N"), pb), "C07.R2", inst + ":positive batches tile all N rows", ssite,
-                     "positive batch starts run over %s; expected range(0, N, pos_batch_size)" % (pos_r,))
-            if c["bases"]:
-                b_t, b_r = batch_desc(srcs[2])
-                bperm = [a for a in (b_t.all_atoms() if b_t is not None else []) if isinstance(a, T.App) and a.op == "randperm"]
-                if len(bperm) == 1 and T.P(bperm[0]) != perm:
-                    ck.violation("C07.R1", inst + ":bases use the samples' permutation", ssite,
-                                 "bases are shuffled with a different permutation (%r) than the samples (%r): measurements are paired with the wrong bases" % (bperm[0], perms[0]))
+            for p in returning(paths, inst):
+                shape_err_verdict(ck, "C07.R1", inst, paths)
+                r = p.value
+                srcs = getattr(r, "sources", None)
+                want_n = 3 if c["bases"] else 2
+                if not isinstance(r, VUnknown) or srcs is None or len(srcs) != want_n or not all(isinstance(x, VList) for x in srcs):
+                    ck.undecided("C07.R1", inst, ssite, "the batches are not returned as zip(<%d comprehension-built lists>)" % want_n)
+                    continue
+                pos_t, pos_r = batch_desc(srcs[0])
+                neg_t, neg_r = batch_desc(srcs[1])
+                train = T.sym("train")
+                perms = [a for a in (pos_t.all_atoms() if pos_t is not None else []) if isinstance(a, T.App) and a.op == "randperm"]
+                ck.check(len(perms) == 1 and perms[0].args[0] == T.sym("N"), "C07.R1", inst + ":permutation of all N rows", ssite,
+                         "positive batches are not rows of the data under one random permutation of range(N): %r" % (pos_t,))
+                if len(perms) != 1:
+                    continue
+                perm = T.P(perms[0])
+                shuffled = T.app("index", train, (("adv", perm),))
+                ck.check(pos_t == sliced(shuffled, pb), "C07.R2", inst + ":positive batch = rows [s, s+b) of the shuffled data", ssite,
+                         "positive batch is %r; expected consecutive slices of size pos_batch_size of the shuffled data" % (pos_t,))
+                ck.check(pos_r == ("range", T.ZERO, T.sym("N"), pb), "C07.R2", inst + ":positive batches tile all N rows", ssite,
+                         "positive batch starts run over %s; expected range(0, N, pos_batch_size)" % (pos_r,))
+                if c["bases"]:
+                    b_t, b_r = batch_desc(srcs[2])
+                    bperm = [a for a in (b_t.all_atoms() if b_t is not None else []) if isinstance(a, T.App) and a.op == "randperm"]
+                    if len(bperm) == 1 and T.P(bperm[0]) != perm:
+                        ck.violation("C07.R1", inst + ":bases use the samples' permutation", ssite,
+                                     "bases are shuffled with a different permutation (%r) than the samples (%r): measurements are paired with the wrong bases" % (bperm[0], perms[0]))
+                    else:
+                        ck.check(b_t == sliced(T.app("index", T.sym("bases"), (("adv", perm),)), pb), "C07.R1", inst + ":bases use the samples' permutation", ssite,
+                                 "bases batch is %r; expected the same permutation and the same slices as the samples" % (b_t,))
+                    ck.check(b_r == pos_r, "C07.R2", inst + ":bases tiled like the samples", ssite, "bases batch starts %s differ from sample batch starts %s" % (b_r, pos_r))
+                # ---------------- R4 negative source
+                nsz = pb if c["same"] else nb
+                if c["bases"]:
+                    src, bound = T.sym("zs"), T.sym("Nz")
                 else:
-                    ck.check(b_t == sliced(T.app("index", T.sym("bases"), (("adv", perm),)), pb), "C07.R1", inst + ":bases use the samples' permutation", ssite,
-                             "bases batch is %r; expected the same permutation and the same slices as the samples" % (b_t,))
-                ck.check(b_r == pos_r, "C07.R2", inst + ":bases tiled like the samples", ssite, "bases batch starts %s differ from sample batch starts %s" % (b_r, pos_r))
-            # ---------------- R4 negative source
-            nsz = pb if c["same"] else nb
-            if c["bases"]:
-                src, bound = T.sym("zs"), T.sym("Nz")
-            else:
-                src, bound = train, T.sym("N")
-            ri = [a for a in (neg_t.all_atoms() if neg_t is not None else []) if isinstance(a, T.App) and a.op in ("randint", "randperm")]
-            if c["same"]:
-                ck.check(neg_t == sliced(shuffled, pb), "C07.R4", inst + ":negative rows are training rows", ssite, "negative batch is %r; expected the shuffled training rows" % (neg_t,))
-            else:
-                okn = len(ri) == 1 and ri[0].op == "randint" and neg_t == sliced(T.app("index", src, (("adv", T.P(ri[0])),)), nsz)
-                ck.check(okn, "C07.R4", inst + ":negative rows drawn from %s" % ("the all-Z rows" if c["bases"] else "the training rows"), ssite,
-                         "negative batch is %r; expected rows of %s selected by random row indices, cut by neg_batch_size" % (neg_t, src))
-                if len(ri) == 1 and ri[0].op == "randint":
-                    ck.check(ri[0].args[0] == bound, "C07.R4", inst + ":row indices within the source", ssite,
-                             "negative row indices are drawn below %r, but the rows are taken from a tensor with %r rows" % (ri[0].args[0], bound))
-                # ---------------- R3 count of negative batches = num_batches
-                cnt = count_of_range(neg_r)
-                ck.check(cnt == NB if cnt is not None else None, "C07.R3", inst + ":num_batches negative batches", ssite,
-                         "negative batch starts run over %s: not exactly num_batches batches" % (neg_r,))
+                    src, bound = train, T.sym("N")
+                ri = [a for a in (neg_t.all_atoms() if neg_t is not None else []) if isinstance(a, T.App) and a.op in ("randint", "randperm")]
+                if c["same"]:
+                    ck.check(neg_t == sliced(shuffled, pb), "C07.R4", inst + ":negative rows are training rows", ssite, "negative batch is %r; expected the shuffled training rows" % (neg_t,))
+                else:
+                    okn = len(ri) == 1 and ri[0].op == "randint" and neg_t == sliced(T.app("index", src, (("adv", T.P(ri[0])),)), nsz)
+                    ck.check(okn, "C07.R4", inst + ":negative rows drawn from %s" % ("the all-Z rows" if c["bases"] else "the training rows"), ssite,
+                             "negative batch is %r; expected rows of %s selected by random row indices, cut by neg_batch_size" % (neg_t, src))
+                    if len(ri) == 1 and ri[0].op == "randint":
+                        ck.check(ri[0].args[0] == bound, "C07.R4", inst + ":row indices within the source", ssite,
+                                 "negative row indices are drawn below %r, but the rows are taken from a tensor with %r rows" % (ri[0].args[0], bound))
+                    # ---------------- R3 count of negative batches = num_batches
+                    cnt = count_of_range(neg_r)
+                    ck.check(cnt == NB if cnt is not None else None, "C07.R3", inst + ":num_batches negative batches", ssite,
+                             "negative batch starts run over %s: not exactly num_batches batches" % (neg_r,))
     # ------------------------------------------------------------------ R3/R4/R5 fit
     fit = prog.method("NeuralStateBase", "fit")
     fsite = fit.site()
